@@ -200,7 +200,9 @@ def trans (c : Cfg) (g : G) : PC → Option (G × PC × List PC)
 request (enabled once that request exists), closers, forwarders and result readers on any future
 (enabled once its `New` has returned) -/
 def allowedAsk : PC → Bool
-  | .alloc _ | .reply _ | .close _ _ | .forward _ _ | .result _ => true
+  | .alloc _ | .reply _ | .forward _ _ | .result _ => true
+  | .close _ (some (.reply _ _)) => false     -- `Err.reply` is by definition an error that arrived as a reply
+  | .close _ _ => true
   | _ => false
 
 /-- additionally: `future.New` called directly with an arbitrary (possibly taken) address -/
